@@ -2,7 +2,7 @@
 """Builds /verif/mutants/*.diff: deliberate property-breaking edits (sensitivity proof).
 Each entry: (name, intended property, file, old, new).  Generated against /repo HEAD; never committed there."""
 import subprocess, os, sys
-R='/repo'
+R='/tmp/wt/mk'
 M=[
 # ---- C01 completeness
 ("c01_prover_pad_plus_y", "C01", "src/r1cs/prover.rs", "            r_vec[i] = -exp_y;", "            r_vec[i] = exp_y;"),
